@@ -77,18 +77,25 @@ def get_trail(obj: object) -> Trail:
 
 BaseExcT = TypeVar("BaseExcT", bound=BaseException)
 
+def _render_trail(trail: Trail) -> str:
+    try:
+        return f"{list(trail)}"
+    except ValueError:  # e.g. a dict key that is an int beyond the int -> str conversion limit
+        return "<trail can not be rendered>"
+
+
 if HAS_NATIVE_EXC_GROUP:
     def render_trail_as_note(exc: BaseExcT) -> BaseExcT:
         trail = get_trail(exc)
         if trail:
-            exc.add_note(f"Exception was caused at {list(trail)}")
+            exc.add_note(f"Exception was caused at {_render_trail(trail)}")
         return exc
 else:
     def render_trail_as_note(exc: BaseExcT) -> BaseExcT:
         trail = get_trail(exc)
         if trail:
             if hasattr(exc, "__notes__"):
-                exc.__notes__.append(f"Exception was caused at {list(trail)}")
+                exc.__notes__.append(f"Exception was caused at {_render_trail(trail)}")
             else:
-                exc.__notes__ = [f"Exception was caused at {list(trail)}"]
+                exc.__notes__ = [f"Exception was caused at {_render_trail(trail)}"]
         return exc
